@@ -1,7 +1,8 @@
 """
 C06 -- fields are never read past the end of the payload.
 
-Space: every identity x every shape x valuations {zeros, ones, fingerprint} x
+Space: every identity x every shape x valuations {zeros, ones, fingerprint; for text fields
+also all-NUL and embedded-NUL code units} x
 every whole-byte truncation from full-1 bytes down to the identity header
 (2 bytes, 3 for 4076).  Oracle: constructing the message must fail.
 """
@@ -81,11 +82,13 @@ def _work(item):
     st = core.Stats()
     lo = 3 if identity.startswith("4076") else 2
     for shape in shapes:
-        for mode in ("fp", "zeros", "ones"):
+        for mode in ("fp", "zeros", "ones", "nul", "nulmix"):
             try:
                 payload, _occs, nbits = R.build(identity, shape, mode)
             except (R.BadDefinition, R.TooLong):
                 continue
+            if mode in ("nul", "nulmix") and not any(o.typ == "STR" for o in _occs):
+                continue  # only text-carrying payloads differ from zeros / fp
             cuts = range(len(payload) - 1, lo - 1, -1)
             if tier == "quick" and len(payload) > 300:
                 cuts = list(cuts[:40]) + list(cuts[40:-40:7]) + list(cuts[-40:])
